@@ -137,10 +137,14 @@ TPFree == /\ Tr[l].e = "PFree"
              /\ ps' = [ps EXCEPT ![e.obj] = Dead]
           /\ since' = since
 
+\* events of the other families (system-level traces): stuttering steps for this specification
+Own == {"Reset", "PInit", "PGen", "PFeed", "PReseed", "PLimit", "PFree"}
+TForeign == Tr[l].e \notin Own \cup {"Fault", "San", "Hang", "Garbled"} /\ UNCHANGED <<ps, since>>
+
 Init == l = 1 /\ InitRegs /\ ps = [o \in Objs |-> Dead] /\ since = [o \in Objs |-> 0]
 Next == /\ l <= Len(Tr)
         /\ l' = l + 1
-        /\ (TReset \/ TPInit \/ TPGen \/ TPFeed \/ TPReseed \/ TPLimit \/ TPFree)
+        /\ (TReset \/ TPInit \/ TPGen \/ TPFeed \/ TPReseed \/ TPLimit \/ TPFree \/ TForeign)
 Spec == Init /\ [][Next]_vars
 TraceAccepted == Accepted(Len(Tr))
 =============================================================================
